@@ -282,7 +282,7 @@ def render_history(h, every_len=False):
     toks = []
     for i, (o, k) in enumerate(h):
         if o == "S":
-            toks += ["S", k, "i:%d" % i]
+            toks += ["S", k, ("NIL" if i % 3 == 2 else "i:%d" % i)]    # a Dict used as a set stores nil values
         else:
             toks += [o, k]
         if every_len:
@@ -375,7 +375,7 @@ def c08(res, rng, tier):
                     h = pre + [last]
                     toks = []
                     for i, (o, k) in enumerate(h):
-                        toks += (["S", k, "i:%d" % i] if o == "S" else [o, k])
+                        toks += (["S", k, ("NIL" if (i + len(sel)) % 2 else "i:%d" % i)] if o == "S" else [o, k])
                     toks += ["L", "I"]
                     for k in sel:
                         toks += ["G", k]
@@ -385,7 +385,7 @@ def c08(res, rng, tier):
     if known:
         lines.append("dict S s:61 i:1 S b:61 i:2 G z:61")       # the listed witness
     impl = C.implrun(lines)
-    model = C.modelrun(lines)
+    model = [re.sub(r"\bMARK\b", "NIL", m) for m in C.modelrun(lines)]     # nil values: see ocaml/main.ml
     nontriv = 0
     multi_seen = 0
     mism = 0
@@ -501,6 +501,13 @@ def unhashable_key_programs():
     wrap = {"tuple": lambda x: x + b"\x85", "tuple2": lambda x: b"K\x01" + x + b"\x86",
             "call": lambda x: b"cm\nC\n" + x + b"\x85R", "ref": lambda x: x + b"Q"}
     out = []
+    # wide containers: the unhashable object at every position of a tuple / argument list of 2..17 items
+    for n in (2, 3, 8, 9, 10, 16, 17):
+        for pos in sorted(set([0, 1, n // 2, n - 2, n - 1])):
+            for name, prog in (base[0], base[4]):
+                items = b"".join(prog if j == pos else b"K" + bytes([j]) for j in range(n))
+                out.append(("%s@tuple%d[%d]" % (name, n, pos), b"(" + items + b"t"))
+                out.append(("%s@call%d[%d]" % (name, n, pos), b"cm\nC\n(" + items + b"tR"))
     for name, prog in base:
         out.append((name + "@0", prog))
         for depth in (1, 2, 3):
@@ -558,9 +565,11 @@ def c17(res, rng, tier):
                           found_input=False)
     # ---- direct API: Get / Set / Del with an unhashable key on Dicts of several sizes
     alines, ameta = [], []
+    wide = ["t( " + " ".join("l[ ]" if j == pos else "i:%d" % j for j in range(n)) + " )"
+            for n in (8, 9, 10, 17) for pos in (0, n - 2, n - 1)]
     for size in (0, 1, 7, 8, 9, 100):
         fill = " ".join("S i:%d i:%d" % (j, j * j) for j in range(size))
-        for u in UNHASHABLE:
+        for u in UNHASHABLE + wide:
             for op in ("G %s" % u, "S %s i:0" % u, "D %s" % u):
                 alines.append(("dict %s L I %s L I" % (fill, op)).replace("  ", " "))
                 ameta.append((size, u, op[0]))
@@ -586,7 +595,7 @@ def c17(res, rng, tier):
                           {"kind": "correspondence", "history": alines[i][:2000], "model": md[-300:], "impl": io[-300:]}, found_input=False)
     res.coverage.update({
         "evaluations": len(lines) + len(alines), "distinct_nontrivial": len(progs) + len(tprogs) + len(alines),
-        "rule": "dict-building programs with an unhashable object (list, dict, bytearray) at depth 0..3 inside Tuple / Call args / Ref id x {DICT, SETITEM, SETITEMS, second pair, nested} x 4 configs; tuple keys in map mode; direct Get/Set/Del with 16 unhashable keys on Dicts of 0,1,7,8,9,100 entries with contents compared before/after",
+        "rule": "dict-building programs with an unhashable object (list, dict, bytearray) at depth 0..3 inside Tuple / Call args / Ref id x {DICT, SETITEM, SETITEMS, second pair, nested} x 4 configs; tuple keys in map mode; the unhashable object at every position of Tuples / argument lists of 2..17 items; direct Get/Set/Del with 16 + 12 (wide tuples) unhashable keys on Dicts of 0,1,7,8,9,100 entries with contents compared before/after",
         "programs": len(lines) + len(alines), "disagreements_checked": len(lines) + len(alines)})
     res.samples = [{"program_hex": meta[i][1].hex(), "impl": impl[i][:100]} for i in (0, 5, 40)] + \
                   [{"history": alines[i][-80:], "impl": aimpl[i][-120:]} for i in (0, 50)]
